@@ -33,7 +33,7 @@ PROPERTY = "C01"
 LEVEL = "exploration"
 IMPORTS_IOFLO = False          # the check itself never imports ioflo in-process
 RULE = ("solo: every module found under <repo>/ioflo (exhaustive) + `import ioflo`, each in a clean "
-        "subprocess, normally started, started with -S (no site / .pth preloads), started with -OO (asserts and docstrings stripped) and started without a standard output (fd 1 closed, sys.stdout is None); orders: Hypothesis-drawn permutations of subsets of 2-12 modules and of all modules, imported "
+        "subprocess, normally started, started with -S (no site / .pth preloads), started with -OO (asserts and docstrings stripped) started without a standard output (fd 1 closed, sys.stdout is None), and with the import made by a worker thread of a normally started interpreter (quick: every package and a third of the modules, thorough: all); orders: Hypothesis-drawn permutations of subsets of 2-12 modules and of all modules, imported "
         "one after another in one fresh process, each outcome compared with the module's solo outcome. "
         "non-trivial solo = module that is not a package __init__ and imports another ioflo module; "
         "non-trivial order = modules from >= 2 different subpackages; distinct = module / module sequence")
@@ -129,7 +129,11 @@ def solo(module, cwd, bare=False):
     """-> (outcome 'ok' | exception type, detail dict).  bare: interpreter started with -S (no site module, so
     none of the start-up hooks of the environment - .pth files, sitecustomize - has imported anything first)"""
     code = "import sys; sys.path.insert(0, %r); import %s" % (env.REPO, module)
-    rc, out, err = _run(code, cwd, {"OO": ("-OO",), "nostdout": ("nostdout",)}.get(bare, ("-S",) if bare else ()))
+    if bare == "thread":      # the first import of the process is made by a worker thread (plugin loader, server worker)
+        code = ("import sys, threading, traceback\nsys.path.insert(0, %r)\nbad = []\n"
+                "def load():\n    try:\n        import %s\n    except BaseException:\n        traceback.print_exc()\n        bad.append(1)\n"
+                "t = threading.Thread(target=load)\nt.start()\nt.join()\nsys.exit(1 if bad else 0)\n") % (env.REPO, module)
+    rc, out, err = _run(code, cwd, {"OO": ("-OO",), "nostdout": ("nostdout",), "thread": ()}.get(bare, ("-S",) if bare else ()))
     if rc == 0 and "Traceback (most recent call last)" not in err:
         return "ok", {}
     if rc == -999:
@@ -176,10 +180,11 @@ def bare_failures(module, rel, outcome, det, bare_outcome, bare_det, flag=True):
     if bare_outcome in ("ModuleNotFoundError", "ImportError") and m and m.group(1).split(".")[0] != "ioflo":
         return []
     inner = bare_det.get("inner")
-    tag = {"OO": "import-OO", "nostdout": "import-nostdout"}.get(flag, "import-bare")
+    tag = {"OO": "import-OO", "nostdout": "import-nostdout", "thread": "import-thread"}.get(flag, "import-bare")
     sig = "%s:%s:%s" % (tag, module, bare_outcome) if (not inner or inner == rel) else "%s:%s@%s" % (tag, bare_outcome, inner)
     how = {"OO": "-OO (asserts and docstrings stripped)",
-           "nostdout": "its standard output closed (sys.stdout is None, as under a daemon or pythonw)"}.get(
+           "nostdout": "its standard output closed (sys.stdout is None, as under a daemon or pythonw)",
+           "thread": "nothing special, the import being made by a worker thread"}.get(
                flag, "-S (nothing preloaded by site / .pth hooks)")
     what = ("`import %s` alone gives %s in a normally started interpreter but %s in one started with %s: %s "
             "[innermost ioflo file: %s]" % (module, outcome, bare_outcome, how, last, inner or "?"))
@@ -207,6 +212,16 @@ def work(shard, seed, tier):
                 bares = list(ex.map(lambda m: solo(m[0], cwd, bare=True), todo))
                 opts = list(ex.map(lambda m: solo(m[0], cwd, bare="OO"), todo))
                 nouts = list(ex.map(lambda m: solo(m[0], cwd, bare="nostdout"), todo))
+                # quick: every package and a third of the modules (chosen by the seed); thorough: all
+                ttodo = [m for k, m in enumerate(todo) if tier != "quick" or m[2] or (k + seed) % 3 == 0]
+                thrs = list(ex.map(lambda m: solo(m[0], cwd, bare="thread"), ttodo))
+            first = dict((m[0], r) for m, r in zip(todo, results))
+            for (module, rel, is_init), (toutcome, tdet) in zip(ttodo, thrs):
+                outcome, det = first[module]
+                acc.case(key=("solo-thread", module), nontrivial=nontrivial_module(rel, is_init),
+                         classes=["solo-thread", "solo-thread:" + ("ok" if toutcome == "ok" else toutcome)], sample=None)
+                for sig, what in bare_failures(module, rel, outcome, det, toutcome, tdet, flag="thread"):
+                    acc.fail(sig, what, {"solo": module, "bare": "thread"})
             for (module, rel, is_init), (outcome, det), (noutcome, ndet) in zip(todo, results, nouts):
                 acc.case(key=("solo-nostdout", module), nontrivial=nontrivial_module(rel, is_init),
                          classes=["solo-nostdout", "solo-nostdout:" + ("ok" if noutcome == "ok" else noutcome)], sample=None)
